@@ -3,9 +3,12 @@
    [chunks_same_control] shows that acceptance (and with it error/no-error, and by C09 the
    position) is independent of the chunking for every input and every chunking. The value
    part differs between chunkings exactly where [d_fast] matters (the recorded int64 top-decade
-   finding); it is decided by correspondence against run_chunks. *)
+   finding): C03_values_* / C03_chunkings_agree_* prove that this is the ONLY difference, for
+   every chunking (ChunkSim.v); what the number leaves are is decided by correspondence. *)
 From Coq Require Import Init.Byte ZArith List Bool.
-Require Import Ojg.Base.Bytes Ojg.Json.Machine Ojg.Json.Chunk.
+Require Import Ojg.Base.Bytes Ojg.Base.Jv Ojg.Json.Machine Ojg.Json.Chunk.
+Require Import Ojg.Json.Ref Ojg.Json.RefParse Ojg.Json.Sweep Ojg.Json.DataInv Ojg.Json.Frontends.
+Require Import Ojg.Json.Sweep_parser Ojg.Json.Sweep_gen Ojg.Json.DSweeps Ojg.Json.ValueSim Ojg.Json.ValueSimSweeps Ojg.Json.ChunkSim.
 Import ListNotations.
 
 Theorem C03_chunks_control : forall K cs,
@@ -17,5 +20,61 @@ Theorem C03_chunks_control : forall K cs,
   | _, _ => False
   end.
 Proof. exact chunks_same_control. Qed.
+
+
+(* Value clause under chunking, for the value-building front-ends and EVERY list of read
+   buffers: same accept/reject as the reference parser on the whole text, and the delivered
+   documents are the reference's documents up to number leaves (TR: a number leaf is the number
+   builder's result on the literal, the scan-ahead flag cleared at any byte). *)
+Definition C03_values (one : bool) (K : cfg) : Prop :=
+  forall cs,
+    match run_all_chunks K cs with
+    | OOk docs _ => exists rdocs, ref_parse one false (concat cs) = Some rdocs /\ Forall2 (TR K) rdocs docs
+    | OErr _ _ => ref_parse one false (concat cs) = None
+    | _ => False
+    end.
+
+Theorem C03_values_parser : C03_values true fe_parser.
+Proof. exact (chunks_refine true fe_parser eq_refl sweep_parser dsweep_parser simsweep_parser). Qed.
+Theorem C03_values_gen : C03_values true fe_gen.
+Proof. exact (chunks_refine true fe_gen eq_refl sweep_gen dsweep_gen simsweep_gen). Qed.
+Theorem C03_values_parser_multi : C03_values false fe_parser_multi.
+Proof. exact (chunks_refine false fe_parser_multi eq_refl sweep_parser_multi dsweep_parser_multi simsweep_parser_multi). Qed.
+Theorem C03_values_gen_multi : C03_values false fe_gen_multi.
+Proof. exact (chunks_refine false fe_gen_multi eq_refl sweep_gen_multi dsweep_gen_multi simsweep_gen_multi). Qed.
+
+(* two ways of cutting the same text give the same outcome and documents that are images of the
+   same reference documents *)
+Definition C03_chunkings_agree (K : cfg) : Prop :=
+  forall cs1 cs2, concat cs1 = concat cs2 ->
+    match run_all_chunks K cs1, run_all_chunks K cs2 with
+    | OOk d1 _, OOk d2 _ => exists rdocs, Forall2 (TR K) rdocs d1 /\ Forall2 (TR K) rdocs d2
+    | OErr _ _, OErr _ _ => True
+    | _, _ => False
+    end.
+Theorem C03_chunkings_agree_parser : C03_chunkings_agree fe_parser.
+Proof. exact (chunkings_agree true fe_parser eq_refl sweep_parser dsweep_parser simsweep_parser). Qed.
+Theorem C03_chunkings_agree_gen : C03_chunkings_agree fe_gen.
+Proof. exact (chunkings_agree true fe_gen eq_refl sweep_gen dsweep_gen simsweep_gen). Qed.
+Theorem C03_chunkings_agree_parser_multi : C03_chunkings_agree fe_parser_multi.
+Proof. exact (chunkings_agree false fe_parser_multi eq_refl sweep_parser_multi dsweep_parser_multi simsweep_parser_multi). Qed.
+Theorem C03_chunkings_agree_gen_multi : C03_chunkings_agree fe_gen_multi.
+Proof. exact (chunkings_agree false fe_gen_multi eq_refl sweep_gen_multi dsweep_gen_multi simsweep_gen_multi). Qed.
+
+(* the only freedom of TR is in number leaves *)
+Theorem C03_no_numbers_exact : forall K v v', nonum v = true -> TR K v v' -> v' = v.
+Proof. exact TR_nonum. Qed.
+
+(* non-vacuity: a document cut inside a string escape, inside a literal and inside a number *)
+Example C03_values_example :
+  let bs := map (fun n => n2b n) in
+  run_all_chunks fe_parser [bs [123;34;97;92]%N; bs [110;34;58;91;116;114]%N; bs [117;101;44;49]%N; bs [50;93;125]%N] =
+    OOk [JObj [([x61; x0a], JArr [JBool true; JInt 12])]] [] /\
+  ref_parse true false (bs [123;34;97;92;110;34;58;91;116;114;117;101;44;49;50;93;125]%N) =
+    Some [JObj [([x61; x0a], JArr [JBool true; JBig [x31; x32]])]].
+Proof. vm_compute. split; reflexivity. Qed.
+
+Print Assumptions C03_values_parser.
+Print Assumptions C03_chunkings_agree_gen_multi.
 
 Print Assumptions C03_chunks_control.
